@@ -45,6 +45,9 @@ fn l3(name: &'static str, quick: u64, thorough: u64) -> PlanItem {
 fn l2o(name: &'static str, quick: u64, thorough: u64, over: Vec<(&'static str, i64)>) -> PlanItem {
     PlanItem { layer: "L2", name, quick, thorough, over }
 }
+fn l3o(name: &'static str, quick: u64, thorough: u64, over: Vec<(&'static str, i64)>) -> PlanItem {
+    PlanItem { layer: "L3", name, quick, thorough, over }
+}
 
 pub fn plan(prop: &str) -> Vec<PlanItem> {
     match prop {
@@ -69,9 +72,9 @@ pub fn plan(prop: &str) -> Vec<PlanItem> {
             v
         }
         "C02" | "C03" => vec![l1("mutex", 400_000, 12_000_000), l2("S-mutex", 300_000, 8_000_000), l3("T-mutex", 60_000, 3_000_000)],
-        "C04" => vec![l1o("mutex", 300_000, 8_000_000, vec![("fair", 1)]), l2o("S-mutex", 200_000, 5_000_000, vec![("fair", 1)])],
+        "C04" => vec![l1o("mutex", 300_000, 8_000_000, vec![("fair", 1)]), l2o("S-mutex", 200_000, 5_000_000, vec![("fair", 1)]), l3o("T-mutex", 40_000, 2_000_000, vec![("fair", 1)])],
         "C05" | "C06" => vec![l1("semaphore", 400_000, 12_000_000), l2("S-sem", 300_000, 8_000_000), l3("T-sem", 60_000, 3_000_000)],
-        "C07" => vec![l1o("semaphore", 300_000, 8_000_000, vec![("fair", 1)]), l2o("S-sem", 200_000, 5_000_000, vec![("fair", 1)])],
+        "C07" => vec![l1o("semaphore", 300_000, 8_000_000, vec![("fair", 1)]), l2o("S-sem", 200_000, 5_000_000, vec![("fair", 1)]), l3o("T-sem", 40_000, 2_000_000, vec![("fair", 1)])],
         "C08" | "C09" | "C10" => vec![
             l1("mpmc", 400_000, 12_000_000),
             l2("S-chan", 200_000, 5_000_000),
@@ -1066,7 +1069,7 @@ pub fn cmd_check(root: &Path, prop: &str, tier: &str, seed: u64, threads: usize)
             "known_findings_hit": known_hits,
         },
         "assumptions": [
-            "sampling, not enumeration: bounded histories (<= 96 ops, <= 6 live futures per kind; L2: <= 6 tasks), sequentially consistent execution",
+            "sampling, not enumeration: bounded histories (<= 96 ops plus an optional prefill burst, <= 16 live futures per kind; L2: <= 6 tasks), sequentially consistent execution",
             "guarded hooks (cfg futures_intrusive_verif) are read-only",
         ],
         "wall_s": wall,
